@@ -39,6 +39,8 @@ static long g_consec = 0; static int g_last = -1;
 static void (*g_sighandler[65])(int) = {nullptr};
 
 bool (*g_is_modelled)(const void*, int) = nullptr;
+volatile int* g_dec_sink = nullptr;
+void (*g_on_abort)(const char*, const std::vector<int>&) = nullptr;
 void (*g_user_sink)(const char*, const void*) = nullptr;
 std::vector<Uad> g_uad;
 
@@ -104,6 +106,7 @@ static void deliver_signals() {
     if (s < 65 && g_sighandler[s]) g_sighandler[s](s); c->in_handler = false; } }
 
 static void abort_exec(const char* why) {
+  if (g_on_abort) g_on_abort(why, g_res.trace);
   fprintf(stderr, "vsched: execution aborted: %s (steps=%zu)\n", why, g_res.steps); fflush(stderr); _exit(42); }
 
 static void dfs_point(const void* addr, int kind, bool mod) {
@@ -123,6 +126,7 @@ static void dfs_point(const void* addr, int kind, bool mod) {
   if (cost && g_preempt_used >= g_spec.bound) { choice = 0; cost = 0; }
   g_preempt_used += cost;
   g_res.decs.push_back(Dec{nalt, choice, cost});
+  if (g_dec_sink) { int n = g_dec_sink[0]; if (n >= 0 && n < DEC_SINK_MAX) { g_dec_sink[1 + 2 * n] = nalt; g_dec_sink[2 + 2 * n] = choice; g_dec_sink[0] = n + 1; } else g_dec_sink[0] = -1; }
   int w = alts[choice]; if (w != t_self) switch_to(t_self, w);
 }
 
